@@ -83,10 +83,28 @@ Proof. exact eof_not_caused_by_failure_stmt. Qed.
 Print Assumptions C15_eof_not_caused_by_failure.
 
 (* ---------- 5. the events before the failure are a prefix of the true sequence ---------- *)
-(* no attachment callback; compressed chunks allowed provided the decoder passes the source error
-   through and is prefix-monotone.  The run on the failing source ends with the source's error, or it
-   is identical to the run on the complete input. *)
-Theorem C15_error_prefix_partial : forall lo dstream e,
+(* Full statement: any callback mode, compressed chunks allowed provided the decoder passes the source
+   error through and is prefix-monotone.  The events of the run on the failing source are a prefix of
+   the events for the complete input, except that its last event may be an attachment callback
+   observation that carries fewer data bytes (att_truncated); and the run ends with the source's
+   error, or it is identical to the run on the complete input. *)
+Theorem C15_error_prefix : forall lo dstream e,
+  e <> EEOF -> e <> EUnexpectedEOF -> e <> ETruncated -> e <> EInvalidChunkCrc ->
+  (forall c a, snd (dstream c a (Some e)) = Some e) ->
+  (forall c a t, exists u, fst (dstream c (a ++ t) None) = fst (dstream c a (Some e)) ++ u) ->
+  forall fuel fuel' p rest sk evsF finF sF evsC finC sC,
+    lex_all lo dstream fuel {| r_buf := p; r_end := Some e; r_seek := sk |} = Ok (evsF, finF, sF) ->
+    lex_all lo dstream fuel' {| r_buf := p ++ rest; r_end := None; r_seek := sk |} = Ok (evsC, finC, sC) ->
+    ((exists t, evsC = evsF ++ t) \/
+     (exists pre a' a t, evsF = pre ++ [EvAttachment a'] /\ evsC = pre ++ EvAttachment a :: t /\
+        ao_log a' = ao_log a /\ ao_create a' = ao_create a /\ ao_name a' = ao_name a /\
+        ao_media a' = ao_media a /\ ao_size a' = ao_size a /\ exists d, ao_data a = ao_data a' ++ d))
+    /\ (finF = e \/ (finF = finC /\ evsF = evsC)).
+Proof. exact error_prefix_full_stmt. Qed.
+Print Assumptions C15_error_prefix.
+
+(* without an attachment callback the events are a plain prefix *)
+Theorem C15_error_prefix_no_callback : forall lo dstream e,
   e <> EEOF -> e <> EUnexpectedEOF -> e <> ETruncated -> e <> EInvalidChunkCrc ->
   lo_cb lo = CbNone ->
   (forall c a, snd (dstream c a (Some e)) = Some e) ->
@@ -96,10 +114,7 @@ Theorem C15_error_prefix_partial : forall lo dstream e,
     lex_all lo dstream fuel' {| r_buf := p ++ rest; r_end := None; r_seek := sk |} = Ok (evsC, finC, sC) ->
     (exists t, evsC = evsF ++ t) /\ (finF = e \/ (finF = finC /\ evsF = evsC)).
 Proof. exact error_prefix_stmt. Qed.
-Print Assumptions C15_error_prefix_partial.
-
-(* the general statement, with attachment callbacks (not proved): *)
-Definition C15_full_statement : Prop := error_prefix_full_statement.
+Print Assumptions C15_error_prefix_no_callback.
 
 (* ---------- non-vacuity ---------- *)
 (* ReadFull over one-byte fragments, over arbitrary fragments and over data+EOF *)
@@ -147,6 +162,20 @@ Example C15_ex_magic_only :
   ex_strip (lex_all (ex_lo false CbNone 0 0) id_oracle 100 (ex_rdr magic None false)) = Ok ([], EEOF) /\
   ex_strip (lex_all (ex_lo false CbNone 0 0) id_oracle 100 (ex_rdr magic (Some EInjected) false)) = Ok ([], EInjected).
 Proof. vm_compute. split; reflexivity. Qed.
+
+(* with a reading callback: the source fails after 70 of 108 bytes, inside the attachment data; the last
+   event of the failing run is the attachment observation with 2 of the 4 data bytes *)
+Example C15_ex_error_prefix_callback :
+  let evsF := ex_events (lex_all (ex_lo false CbFull 0 0) id_oracle 200 (ex_rdr (firstn 70 ex_att_file) (Some EInjected) true)) in
+  let evsC := ex_events (lex_all (ex_lo false CbFull 0 0) id_oracle 200 (ex_rdr (firstn 70 ex_att_file ++ skipn 70 ex_att_file) None true)) in
+  length evsF = 2%nat /\ length evsC = 3%nat /\ firstn 1 evsF = firstn 1 evsC /\
+  match nth 1 evsF EvInvalidChunk, nth 1 evsC EvInvalidChunk with
+  | EvAttachment a', EvAttachment a => ao_data a' = [x01; x02] /\ ao_data a = [x01; x02; x03; x04]
+  | _, _ => False
+  end /\
+  ex_strip (lex_all (ex_lo false CbFull 0 0) id_oracle 200 (ex_rdr (firstn 70 ex_att_file) (Some EInjected) true))
+  = Ok (evsF, EInjected).
+Proof. vm_compute. repeat split; reflexivity. Qed.
 
 (* ---------- counterexamples: clean EOF in the middle of a file (failing source or not) ---------- *)
 (* (i) validating lexer, chunk declaring 5 uncompressed bytes with an empty records field: io.ReadFull
